@@ -74,6 +74,11 @@ def _(c):
     c.local("needs_reset", List(Tup(TP, INT)))
     c.local("offsets", Dict(TP, Tup(INT, INT)))
     c.ghost("$requested", REQUESTED, "no_requests()")        # partition -> the reset strategy put into the ListOffsets request
+    # "raises NoOffsetForPartition ... to the caller": the error is parked in the partition's buffer slot; a caller already
+    # waiting in getone()/getmany() learns of it only if this call reports that something was parked (the fetch routine wakes
+    # the waiters exactly then) - whatever else happens in the same call
+    c.ghost("$parked", BOOL, "False")
+    c.local("needs_wakeup", BOOL)
     c.owns("self._client", "self._subscriptions", "self._default_reset_strategy")
     c.requires(STRATEGY_OK, "reset-policy-is-a-strategy-constant")
     c.none_raises = True
@@ -87,7 +92,9 @@ def _(c):
     # AttributeError (a partition outside the assignment), KeyError (ListOffsets answer without the partition),
     # AssertionError from _set_error, an exception stored in the committed-offset future
     c.raises("lookup-failed-partition-unknown-or-cancelled-while-backing-off", "BaseException")
-    c.loop(0, header="for tp in tps", invariants=[("nothing-requested-yet", "$requested == no_requests()")])
+    c.loop(0, header="for tp in tps", invariants=[("nothing-requested-yet", "$requested == no_requests()"),
+                                                  ("an-error-parked-so-far-will-be-announced", "implies($parked, needs_wakeup)")])
+    c.ensures("an-error-parked-for-the-caller-is-announced-to-the-waiting-callers", "implies($parked, result)")
     STATE_OF = "assignment._tp_state[%s]._reset_strategy"
     c.loop(1, header="for tp in tps", invariants=[
         ("requests-carry-the-pending-strategy",
@@ -117,6 +124,7 @@ def _(c):
          "a0 == tp and a1 == Errors.NoOffsetForPartitionError and committed.offset == UNKNOWN_OFFSET"
          " and self._default_reset_strategy == OffsetResetStrategy.NONE"),
         ("assert", "a-seek-or-reset-issued-meanwhile-takes-precedence", UNPOSITIONED),
+        ("set", "$parked", "True"),
     ])
     # ---- second pass: ListOffsets for the partitions awaiting a reset
     c.hook("before", "topic_data*.append", [
@@ -213,8 +221,40 @@ async def one(policy, committed, act1, act2, start):
     finally:
         await fetcher.close()
 
+async def two(fault):
+    """policy none: partition a has nothing committed (its error is parked), partition b waits for seek_to_end() and its
+    ListOffsets fails in the same call: the call must still report that something was parked"""
+    client = AIOKafkaClient(bootstrap_servers=[])
+    subs = SubscriptionState()
+    fetcher = Fetcher(client, subs, auto_offset_reset="none", retry_backoff_ms=1)
+    try:
+        a, b = TopicPartition("t", 0), TopicPartition("t", 1)
+        subs.assign_from_user({a, b})
+        assignment = subs.subscription.assignment
+        assignment.state_value(b).await_reset(OffsetResetStrategy.LATEST)
+        async def proc_offset_request(node_id, topic_data):
+            if fault is None:
+                return {b: (90, -1)}
+            raise fault
+        fetcher._proc_offset_request = proc_offset_request
+        task = asyncio.ensure_future(fetcher._update_fetch_positions(assignment, 0, [a, b]))
+        await asyncio.sleep(0)
+        assignment.state_value(a).update_committed(OffsetAndMetadata(-1, ""))
+        woke = await task
+        parked = isinstance(fetcher._records.get(a), FetchError)
+        if parked and not woke:
+            return "policy none, ListOffsets for another partition of the same call %s: NoOffsetForPartitionError was parked but the call reported nothing to wake the waiting getone()/getmany() for" % ("fails with %s" % type(fault).__name__ if fault else "succeeds")
+        if not parked:
+            return "policy none: no error parked for the partition without a committed offset"
+        return None
+    finally:
+        await fetcher.close()
+
 async def main():
     bad = []
+    for fault in (None, E.RequestTimedOutError(), E.NotLeaderForPartitionError()):
+        r = await two(fault)
+        if r: bad.append(r)
     for policy, committed, a1, a2 in itertools.product(("latest", "earliest", "none"), (-1, 0, 42), ACTIONS, ACTIONS):
         r = await one(policy, committed, a1, a2, "fresh")
         if r: bad.append(r)
